@@ -925,6 +925,9 @@ FFOutcome(n, x, o) ==
         F0 == Checks("-", "Conf_FF_ValidAdopted", (d \in { "none", "none-from-lagging-server" } /\ x.valid /\ x.trusted_signer) => o.adopted)
         F == Checks("-", "Conf_FF_Known", ConfKnown(h2, o))
              \cup Checks("-", "Conf_FF_PS", ConfPS(h2, o))
+             \cup Checks("-", "Conf_FF_FirstRounds",
+                         "firstrounds" \notin DOMAIN o \/
+                         \A k \in 1..Len(o.firstrounds) : FirstRoundOf(h2, o.firstrounds[k].c) = o.firstrounds[k].fr)
              \cup Checks("-", "Conf_FF_Scalars", ConfScalars(h2, o))
              \cup Checks("-", "Conf_FF_Head", nd1.head = o.head /\ nd1.seq = o.seq)
     IN  IF ~o.adopted
